@@ -25,8 +25,8 @@ func Load(env types.EnvType) {
 	call.CallOverrideFN(env, "reset!", reset_BANG)
 	call.Call(env, future_call)
 	call.Call(env, future_cancel)
-	call.CallOverrideFN(env, "future-cancelled?", func(f *Future) (bool, error) { return f.Cancelled, nil })
-	call.CallOverrideFN(env, "future-done?", func(f *Future) (bool, error) { return f.Done, nil })
+	call.CallOverrideFN(env, "future-cancelled?", func(f *Future) (bool, error) { return f.IsCancelled(), nil })
+	call.CallOverrideFN(env, "future-done?", func(f *Future) (bool, error) { return f.IsDone(), nil })
 	call.CallOverrideFN(env, "future?", func(f MalType) (bool, error) { return Q[*Future](f), nil })
 	call.Call(env, new_future_call)
 }
@@ -144,6 +144,7 @@ type Future struct {
 	ValChan    chan MalType
 	ErrChan    chan error
 	CancelFunc context.CancelFunc
+	mu         sync.Mutex // protects Done and Cancelled
 	Done       bool
 	Cancelled  bool
 
@@ -168,9 +169,14 @@ func NewFuture(ctx context.Context, fn MalFunc) *Future {
 	go func() {
 		defer simhook.TaskEnd(simTask)
 		simhook.TaskStart(simTask)
-		defer func() { f.Done = true }()
 		res, err := Apply(ctx, fn, nil)
 		simhook.Yield("future.body-returned", f)
+		// mark the future done before the outcome is handed to any reader, so that
+		// future-done? is true as soon as a deref has returned
+		f.mu.Lock()
+		f.Done = true
+		f.mu.Unlock()
+		simhook.Yield("future.done-set", f)
 		if err != nil {
 			f.ErrChan <- err
 			simhook.Yield("future.delivered", f)
@@ -184,13 +190,28 @@ func NewFuture(ctx context.Context, fn MalFunc) *Future {
 }
 
 func (f *Future) Cancel() bool {
+	simhook.Yield("future.cancel.enter", f)
+	f.mu.Lock()
+	defer f.mu.Unlock()
 	if !f.Done {
-		simhook.Yield("future.cancel.checked", f)
 		f.Cancelled = true
-		simhook.Yield("future.cancel.flagged", f)
 		f.Done = true
 		f.CancelFunc()
 	}
+	return f.Cancelled
+}
+
+// IsDone reports whether the body has finished or the future was cancelled.
+func (f *Future) IsDone() bool {
+	f.mu.Lock()
+	defer f.mu.Unlock()
+	return f.Done
+}
+
+// IsCancelled reports whether the future was cancelled before its body finished.
+func (f *Future) IsCancelled() bool {
+	f.mu.Lock()
+	defer f.mu.Unlock()
 	return f.Cancelled
 }
 
